@@ -191,6 +191,10 @@ def drives(quick):
     # the device object of the earlier drives meshed again, finer (Triangle inserts new boundary vertices, so sites and
     # boundary edges are renumbered): terminal bookkeeping must be that of the mesh in use
     d += [dict(name="2term_after_remesh", dev="bar", remesh=0.5, cur={"source": 4.0, "drain": -4.0}, A=0.3, opts=dict(dt_init=5e-3, adaptive=False))]
+    # a bias so small that its dimensionless density is below 1e-8, and a bias swept in steps of 1e-6 of its value:
+    # the requested current is the requested current, however small it or its change is
+    d += [dict(name="2term_tiny_bias", dev="bar", cur={"source": 2e-8, "drain": -2e-8}, A=0.0, opts=dict(dt_init=1e-2, adaptive=False)),
+          dict(name="2term_fine_sweep", dev="bar", cur="fine", A=0.1, opts=dict(dt_init=1e-2, adaptive=False))]
     d += [dict(name="3term_same_solver_solved_twice", dev="bar3", twice=True, cur={"source": 3.0, "drain": -1.0, "top": -2.0}, A=0.2, opts=dict(dt_init=1e-2, adaptive=False))]
     # "converted from the user's units": prefixes of the current unit and of the device's length unit that do not cancel
     d += [
@@ -208,6 +212,11 @@ def drives(quick):
 
 def timedep_currents(t):
     i = 4.0 * np.sin(7.0 * t) + 1.3
+    return {"source": i, "drain": -i}
+
+
+def fine_sweep_currents(t):
+    i = 5.0 * (1.0 + 1e-4 * t)
     return {"source": i, "drain": -i}
 
 
@@ -248,7 +257,7 @@ def run_level(ctx, stop_first=False):
             except RuntimeError:
                 ctx.count("drives_on_the_grounded_solve_path")
         D = build_divergence(dev.mesh)
-        cur = timedep_currents if dr["cur"] == "timedep" else (timedep4_currents if dr["cur"] == "timedep4" else dr["cur"])
+        cur = timedep_currents if dr["cur"] == "timedep" else (timedep4_currents if dr["cur"] == "timedep4" else (fine_sweep_currents if dr["cur"] == "fine" else dr["cur"]))
         cu = dr["opts"].get("current_units", "uA")
         out = os.path.join(str(ctx.work), f"{dr['name']}.h5")
         opts = runs.options(solve_time=dr.get("T", 0.12), save_every=3, output_file=out, progress_interval=10**9, **dr["opts"])
@@ -439,16 +448,95 @@ def acceptance(ctx):
     return first
 
 
+def boundary_level(ctx, with_model=True):
+    """`update_mu_boundary` under arbitrary request histories: after every call the boundary edges of every terminal hold
+    the density requested by that call (constant stretches, tiny values, changes of 1e-9 of the value, zero, sign flips);
+    the same history through the Lean model `muBoundaryWith` (Float, `!=`) gives the same bits."""
+    from tdgl.solver.solver import TDGLSolver
+
+    first = None
+    dev = zoo.make_device("bar3", ctx.rng, max_edge_length=1.4)
+    names = ["source", "drain", "top"]
+    for rep in range(3 if ctx.quick else 12):
+        rng = ctx.rng
+        n = int(rng.integers(12, 30))
+        table = []
+        a, b_ = 3.0, -1.0
+        for k in range(n):
+            kind = rng.choice(["same", "tiny_rel", "tiny_abs", "zero", "big", "flip", "new"], p=[0.2, 0.25, 0.15, 0.08, 0.08, 0.08, 0.16])
+            if kind == "tiny_rel":
+                a, b_ = a * (1 + float(rng.choice([1e-9, -1e-9, 3e-7, 1e-12]))), b_
+            elif kind == "tiny_abs":
+                a, b_ = float(rng.choice([1e-9, 2e-8, -1e-11, 1e-13])), float(rng.choice([1e-9, -3e-10, 0.0]))
+            elif kind == "zero":
+                a, b_ = 0.0, 0.0
+            elif kind == "big":
+                a, b_ = float(rng.normal() * 1e3), float(rng.normal() * 1e3)
+            elif kind == "flip":
+                a, b_ = -a, -b_
+            elif kind == "new":
+                a, b_ = float(rng.normal() * 4), float(rng.normal() * 4)
+            table.append((a, b_, -(a + b_)))
+            ctx.count(f"boundary_request:{kind}")
+
+        def cur(t, _tb=table):
+            i = min(max(int(t), 0), len(_tb) - 1)
+            return dict(zip(names, _tb[i]))
+
+        sv = TDGLSolver(device=dev, options=runs.options(solve_time=float(n), dt_init=1e-2, adaptive=False), terminal_currents=cur)
+        K0, xi, to_m = K0_SI(dev)
+        terms = zoo.independent_terminals(dev)
+        em = dev.mesh.edge_mesh
+        got, req_lib, want = [], [], []
+        for k in range(n):
+            sv.update_mu_boundary(float(k))
+            cs = sv.current_func(float(k))
+            row_g, row_r, row_w = [], [], []
+            for ti in sv.terminal_info:
+                vals = np.asarray(sv.mu_boundary[ti.boundary_edge_indices], dtype=float)
+                if vals.size == 0 or not np.all(vals == vals[0]):
+                    rp = dict(call=k, terminal=ti.name)
+                    ctx.fail("boundary-not-uniform", f"call {k}: the boundary edges of terminal {ti.name} do not all hold one value", rp)
+                    first = first or dict(key="boundary-not-uniform", what=ti.name, **rp)
+                row_g.append(float(vals[0]) if vals.size else float("nan"))
+                row_r.append(float((-1 / ti.length) * sum(cs.get(nm, 0) for nm in sv.terminal_names if nm != ti.name)))
+                # independent: I_t (balanced) over the terminal's length measured on the mesh, in units of K0 / 4
+                L_m = em.edge_lengths[terms[ti.name]["boundary_edges"]].sum() * xi
+                row_w.append(4.0 * (table[k][names.index(ti.name)] * 1e-6) / (L_m * K0))
+            got.append(row_g), req_lib.append(row_r), want.append(row_w)
+        got, req_lib, want = np.array(got), np.array(req_lib), np.array(want)
+        sc = np.abs(want).max(axis=1, keepdims=True)
+        err = np.abs(got - want)
+        ctx.tol("boundary value vs requested density (rel to the call's largest density)", float((err / np.maximum(sc, 1e-300)).max()), 1e-11)
+        ctx.case(("boundary", rep, n), nontrivial=True)
+        ctx.count("boundary_calls", n)
+        bad = np.argwhere(err > 1e-11 * sc + 1e-300 * 0)
+        if len(bad):
+            k, t = map(int, bad[0])
+            rp = dict(call=k, terminal=names[t] if t < len(names) else t, held=float(got[k, t]), requested=float(want[k, t]), currents=list(table[k]), previous_currents=list(table[k - 1]) if k else None)
+            ctx.fail("boundary-not-requested", f"after call {k} of update_mu_boundary terminal {rp['terminal']} holds the density {got[k, t]:.12e}, requested {want[k, t]:.12e} (previous request: {rp['previous_currents']})", rp)
+            first = first or dict(key="boundary-not-requested", what=f"call {k}", **rp)
+        if with_model:
+            T = got.shape[1]
+            (o,) = V.driver([f"mub {T} | {zoo.fl(req_lib)}"])
+            ctx.traces += 1
+            mo = zoo.parse_f(o).reshape(n, T)
+            same = bool(np.array_equal(mo, got))
+            ctx.corr(same, "muBoundaryWith (Lean, Float, !=) vs TDGLSolver.update_mu_boundary over a request history", dict(calls=n, first_difference=(np.argwhere(mo != got)[0].tolist() if not same else None)))
+    return first
+
+
 def run(ctx):
     operator_level(ctx)
     run_level(ctx)
     cancelled_level(ctx)
     acceptance(ctx)
+    boundary_level(ctx)
 
 
 def search(ctx):
     ctx.rng = np.random.default_rng(ctx.seed + 2718)
-    return operator_level(ctx, with_model=False) or run_level(ctx, stop_first=True) or cancelled_level(ctx, stop_first=True) or acceptance(ctx)
+    return operator_level(ctx, with_model=False) or run_level(ctx, stop_first=True) or cancelled_level(ctx, stop_first=True) or acceptance(ctx) or boundary_level(ctx, with_model=False)
 
 
 def replay(payload):
